@@ -258,8 +258,12 @@ class World:
         try:
             got = fn(key_arg)
             status = "ok"
-        except (PerfectVisibility, FullDirectionalVisibility) as e:
-            status, got = type(e).__name__, e
+        except PerfectVisibility as e:
+            # a client that asks "is everything explored?" catches this class first; an
+            # exception that merely *is a* PerfectVisibility says the same to it
+            status, got = "PerfectVisibility", e
+        except FullDirectionalVisibility as e:
+            status, got = "FullDirectionalVisibility", e
         except Exception as e:
             self.viol("visibility-exception", f"nearest_{kind}({key}) raised {e!r}")
         st = self.st
